@@ -15,6 +15,10 @@ PENDING = "check not built yet (implementation in progress); the design is in DE
 
 VPNOTE = 'Trusted: clang AST, the path engine, the fact language of sa/vp.py (what counts as a reducing producer / accepted test is listed there), buffer identity by carve expression; frozen per-function tables (point-validation level, accepted alternative forms) carry one reason each. Decides necessary structural conditions, not the numerical statements of the property.'
 CHECKS = {
+ "C08": dict(level="other",
+   text="Relational abstract interpretation (linear inequalities, Fourier-Motzkin implication, bounded disjunction, widening) of the 24 DER/APDU leaf decoders: every read of the input is proved to lie inside the remaining length on all abstract states, every DER decoder returns SIZE_MAX or a consumed length <= its input (callee contracts used as facts and proved for the callees), the remaining length never wraps, no bool constant travels through the size_t error channel; plus a typestate over all of src/ that every result of a SIZE_MAX-channel function is examined before it is used as a length/offset. Termination, output-buffer bounds, canonicality and encode/decode inversion are not decided.",
+   design="4/C08", technique="abstract interpretation (polyhedra-lite domain) over the CFG + typestate on error-channel results",
+   note="Trusted: clang AST, the abstract domain of sa/db.py (size_t arithmetic modelled over the integers with explicit no-wrap obligations on remaining lengths; input octets unconstrained 0..255); string decoders (hex/b64/dec/oid) and composite parsers are covered only by the result-discipline rule."),
  "C11": dict(level="other",
    text="The ordering mechanism behind overlap tolerance is decided on all paths: for each of the ~55 functions whose header remark allows buffers to overlap (instances parsed from belt.h/bash.h/brng.h/der.h/mem.h) and each ordered pair (P writable, Q), once P has been written Q is never read again, and an operation that reads Q and writes P at once is itself tolerant for those parameters (computed recursively from callee bodies with per-parameter read/write summaries; memmove tolerant, memcpy not). Found and fixed five documented-legal placements with wrong results. Output equality for every placement is a value statement; what is decided is the necessary ordering condition.",
    design="4/C11", technique="effect-ordering dataflow on all CFG paths with bottom-up read/write summaries",
